@@ -975,11 +975,23 @@ class ConcatScenario(BaseScenario):
         if pg_of is not None:
             w.touched.add(hmodel["pgs"][pg_of]["uid"])
         ws = w.ws[w.groups[g]["h"]]
+        regrouped = False
+        if self.prop == "C05" and pg_of is not None and len(will_go) == 1 and random.Random(H(op["sub"], "regroup")).random() < 0.3:
+            # the data set is first made a member of a SECOND property group of its hole: the removal must take it out of both
+            _, out2 = self.call(w, lambda: hole.add_data_to_group(data, "second"), "either", what="regroup")
+            regrouped = out2 == "ok"
+            if regrouped:
+                w.sim.probe("data_in_two_groups")
         if entry == "ws":
             _, outcome = self.call(w, lambda: ws.remove_entity(data), what="rm_data_ws")
         else:
             _, outcome = self.call(w, lambda: hole.remove_children([data]), what="rm_data_parent")
-        del data, hole
+        del data
+        if regrouped and outcome == "ok":
+            listing = [(pg.name, [ustr(p) for p in (pg.properties or [])]) for pg in (hole.property_groups or [])]
+            if any(d["uid"] in props for _, props in listing):
+                raise Violation("C05", "pg_keeps_removed", f"removed data {name!r} is still listed by property group(s) {[n for n, p in listing if d['uid'] in p]}", {"where": "concat", "groups": 2})
+        del hole
         if outcome != "ok":
             return outcome
         labels_before = [k for k in hmodel["data"]]
@@ -993,6 +1005,12 @@ class ConcatScenario(BaseScenario):
             if not hmodel["pgs"][pg_of]["members"]:
                 w.removed.add((w.groups[g]["h"], hmodel["pgs"][pg_of]["uid"]))
                 del hmodel["pgs"][pg_of]
+        if regrouped:
+            # which groups remain (an emptied second group may go with its last member): adopted from LIVE, the clause itself was judged above
+            hole = w.hole_ent(g, hu)
+            live = w.live_hole(hole)
+            del hole
+            hmodel["pgs"] = {k: {"uid": v["uid"], "type": v["type"], "members": list(v["members"])} for k, v in live["pgs"].items()}
         w.sim.probe("rm_data_" + entry)
         if name != labels_before[-1] or len(w.groups[g]["holes"]) > 1:
             w.removed_labels.add((g, name))
